@@ -3,6 +3,7 @@ package os
 import (
 	"os"
 	"path/filepath"
+	"sort"
 	"strings"
 	"time"
 )
@@ -246,12 +247,25 @@ func (fs *MockFS) ReadDir(name string) ([]DirEntry, error) {
 	if _, ok := fs.dirs[name]; !ok {
 		return nil, &os.PathError{Op: "readdir", Path: name, Err: os.ErrNotExist}
 	}
-	var entries []DirEntry
-	for path, fileInfo := range fs.fileInfos {
+	var paths []string
+	for path := range fs.fileInfos {
 		dir := filepath.Dir(path)
 		if dir == name || (name == "/" && path != "" && path[0] == '/') {
-			entries = append(entries, &mockDirEntry{info: fileInfo})
+			paths = append(paths, path)
 		}
+	}
+	// Entries are returned sorted by filename, as os.ReadDir does. The path
+	// breaks ties, so that the order never depends on map iteration.
+	sort.Slice(paths, func(i, j int) bool {
+		a, b := fs.fileInfos[paths[i]], fs.fileInfos[paths[j]]
+		if a.name != b.name {
+			return a.name < b.name
+		}
+		return paths[i] < paths[j]
+	})
+	var entries []DirEntry
+	for _, path := range paths {
+		entries = append(entries, &mockDirEntry{info: fs.fileInfos[path]})
 	}
 	return entries, nil
 }
